@@ -43,3 +43,88 @@ for _mod, _nm in ((DLG, "dialogue"), (LEG, "legacy")):
                  ("none-is-empty", "implies(is_none(s), len(result) == 0)")],
         raises="none",
     )
+
+# ---------------------------------------------------------------------------------------------- plan sanitiser
+# `text`, `v`, `plan_dict` range over Dyn = every JSON-like python value (see pyvc/dyn.py); json.loads returns an
+# arbitrary Dyn value or raises (pyvc/externals.py).  strict_comps=True: exceptions inside the `any(...)` generator
+# and the list comprehensions count (their bodies are executed for an arbitrary element).
+TRUE_WORDS = "('true', 't', 'yes', 'y', '1')"
+FALSE_WORDS = "('false', 'f', 'no', 'n', '0')"
+R.contract(
+    SAN + "_coerce_bool", "C13",
+    types={"v": "Dyn"},
+    returns="Tuple[bool, Optional[bool]]",
+    ensures=[
+        ("bool-passthrough", "implies(is_bool(v), result[0] and result[1] == as_bool(v))"),
+        ("int-zero-one", "implies(is_int(v), result[0] == (as_int(v) == 0 or as_int(v) == 1) and "
+                         "implies(result[0], result[1] == (as_int(v) == 1)))"),
+        ("string-spellings",
+         "implies(is_str(v), result[0] == (as_str(v).strip().lower() in " + TRUE_WORDS + " or as_str(v).strip().lower() in " + FALSE_WORDS + ") "
+         "and implies(result[0], result[1] == (as_str(v).strip().lower() in " + TRUE_WORDS + ")))"),
+        ("everything-else-rejected", "implies(not is_bool(v) and not is_int(v) and not is_str(v), not result[0])"),
+        ("rejected-carries-none", "implies(not result[0], is_none(result[1]))"),
+        ("accepted-carries-bool", "implies(result[0], not is_none(result[1]))"),
+    ],
+    raises="none",
+)
+
+FENCED = "(old(s).strip().startswith('```') and old(s).strip().endswith('```') and old(s).strip().find('\\n') != -1)"
+R.contract(
+    SAN + "_strip_triple_fences", "C13",
+    types={"s": "str"},
+    returns="Tuple[str, Optional[str]]",
+    ensures=[
+        ("unfenced-is-trimmed-text", "implies(not " + FENCED + ", result[0] == old(s).strip() and is_none(result[1]))"),
+        ("fenced-has-language-tag", "implies(" + FENCED + ", not is_none(result[1]))"),
+    ],
+    raises="none",
+)
+
+ACC = "as_dict(accepted_obj)"
+PLAN_OUT = "as_list(result[1]['plan'])"
+R.contract(
+    SAN + "parse_and_validate", "C13",
+    types={"text": "Dyn", "schema": "Dyn"},
+    ghost={"accepted_obj": ("Dyn", "any")},
+    post_setup=["accepted_obj = obj"],
+    strict_comps=True,
+    ensures=[
+        ("non-string-rejected", "implies(not is_str(text), not result[0])"),
+        ("oversize-rejected", "implies(is_str(text) and len(as_str(text)) > 20000, not result[0])"),
+        ("accepted-within-raw-size", "implies(result[0], is_str(text) and len(as_str(text)) <= 20000)"),
+        ("rejected-gives-reason-string", "implies(not result[0], is_str(result[1]))"),
+        ("accepted-is-single-object-with-known-keys",
+         "implies(result[0], is_dict(accepted_obj) and 'plan' in " + ACC + " and 'rationale' in " + ACC + " and "
+         "forall((k, 'str'), k in " + ACC + ", k == 'plan' or k == 'rationale' or k == 'reflection'))"),
+        ("accepted-plan-within-limits",
+         "implies(result[0], is_list(result[1]['plan']) and len(" + PLAN_OUT + ") <= 16 and "
+         "forall(i, 0 <= i < len(" + PLAN_OUT + "), is_str(" + PLAN_OUT + "[i]) and len(as_str(" + PLAN_OUT + "[i])) >= 1 and "
+         "len(as_str(" + PLAN_OUT + "[i])) <= 200 and len(as_str(" + PLAN_OUT + "[i]).strip()) > 0))"),
+        ("accepted-rationale-within-limits",
+         "implies(result[0], is_str(result[1]['rationale']) and len(as_str(result[1]['rationale'])) >= 1 and "
+         "len(as_str(result[1]['rationale'])) <= 2000)"),
+        ("accepted-passes-plan-and-rationale-through",
+         "implies(result[0], dyn_same(result[1]['plan'], " + ACC + "['plan']) and dyn_same(result[1]['rationale'], " + ACC + "['rationale']))"),
+        ("reflection-defaults-false", "implies(result[0] and not ('reflection' in " + ACC + "), result[1]['reflection'] == False)"),
+    ],
+    raises="none",
+    loops={1: {"inv": ["forall((kk, 'str'), kk in _done, kk == 'plan' or kk == 'rationale' or kk == 'reflection')"]}},
+)
+
+R.contract(
+    SAN + "sanitize_plan", "C13",
+    types={"plan_dict": "Dyn", "errors": "List[str]"},
+    strict_comps=True, feas_timeout_ms=120,
+    # the docstring promises "does not raise"; dict(plan_dict) does for anything but a mapping: stated as input shape
+    requires=[("plan-is-dict-or-none", "is_dict(plan_dict) or is_null(plan_dict)")],
+    ensures=[
+        ("returns-only-reflection", "result['reflection'] == True or result['reflection'] == False"),
+        ("reflection-defaults-false",
+         "implies(is_null(plan_dict) or not ('reflection' in as_dict(plan_dict)), result['reflection'] == False)"),
+        ("errors-only-appended", "len(errors) >= old(len(errors)) and forall(i, 0 <= i < old(len(errors)), errors[i] == old(errors)[i])"),
+        ("clean-input-no-errors",
+         "implies(is_null(plan_dict) or (not ('ops' in as_dict(plan_dict)) and not ('reflection' in as_dict(plan_dict))), "
+         "len(errors) == old(len(errors)))"),
+    ],
+    raises="none",
+)
